@@ -1,5 +1,9 @@
 import ImathVerif.Spec.GeoSpec
-import ImathVerif.Lemmas.C15Lemmas
+import Mathlib.Tactic.Ring
+import Mathlib.Tactic.Linarith
+import Mathlib.Tactic.FieldSimp
+import Mathlib.Tactic.SplitIfs
+import Mathlib.Algebra.Order.Ring.Abs
 import ImathVerif.Gen.Leaf
 import Mathlib.Analysis.Real.Sqrt
 import Mathlib.Tactic.NormNum
@@ -19,6 +23,12 @@ set_option linter.unreachableTactic false
 namespace ImathVerif.Geo
 open ImathVerif
 variable {α : Type} [Field α] [LinearOrder α] [IsStrictOrderedRing α]
+
+private theorem sabs_abs (x : α) : sabs x = |x| := by
+  unfold sabs
+  split_ifs with h
+  · rw [abs_of_pos h]
+  · rw [abs_of_nonpos (not_lt.mp h)]
 
 theorem scaled_len {m S q : α} {sqrt : α → α} (hs : SqrtSpec sqrt) (hm : 0 ≤ m) (hS : 0 ≤ S) (hq : m * m * S = q) :
     (m * sqrt S) ^ 2 = q ∧ 0 ≤ m * sqrt S := by
@@ -56,7 +66,7 @@ theorem V3_length_spec (tmin : α) (sqrt : α → α) (hs : SqrtSpec sqrt) : Len
 theorem V2_length_spec (tmin : α) (sqrt : α → α) (hs : SqrtSpec sqrt) : LenSpec2 (Gen.V2.length tmin sqrt) := by
   intro a
   generalize hL : Gen.V2.length tmin sqrt a = L
-  simp only [Gen.V2.length, sabs_eq_abs] at hL
+  simp only [Gen.V2.length, sabs_abs] at hL
   simp only [dot2]
   split_ifs at hL <;> subst hL
   all_goals first
